@@ -194,21 +194,21 @@ theorem readChainedSeqContext3_erase (b : Bytes) (pos : Nat) :
   rcases word_cases "fmt" b pos with ⟨f, _, hws⟩ | ⟨_, hws⟩
   · rw [hws]
     dsimp only
-    rcases readSlice_cases "nested.go:1378#ReadUint16Slice" b (pos + 2) Cost.zero with ⟨bo, h1, h1'⟩ | ⟨h1, h1'⟩
+    rcases readSlice_cases "nested.go:1374#ReadUint16Slice" b (pos + 2) Cost.zero with ⟨bo, h1, h1'⟩ | ⟨h1, h1'⟩
     · unfold W at h1'
       rw [h1, ok_bind, h1']
       dsimp only
-      rcases readSlice_cases "nested.go:1382#ReadUint16Slice" b (pos + 2 + 2 + 2 * bo.length) ⟨Cost.zero.steps + 1 + bo.length, Cost.zero.alloc + bo.length⟩ with ⟨io, h2, h2'⟩ | ⟨h2, h2'⟩
+      rcases readSlice_cases "nested.go:1378#ReadUint16Slice" b (pos + 2 + 2 + 2 * bo.length) ⟨Cost.zero.steps + 1 + bo.length, Cost.zero.alloc + bo.length⟩ with ⟨io, h2, h2'⟩ | ⟨h2, h2'⟩
       · unfold W at h2'
         rw [h2, ok_bind, h2']
         dsimp only
-        rcases readSlice_cases "nested.go:1386#ReadUint16Slice" b (pos + 2 + 2 + 2 * bo.length + 2 + 2 * io.length) ⟨Cost.zero.steps + 1 + bo.length + 1 + io.length, Cost.zero.alloc + bo.length + io.length⟩ with ⟨lo, h3, h3'⟩ | ⟨h3, h3'⟩
+        rcases readSlice_cases "nested.go:1382#ReadUint16Slice" b (pos + 2 + 2 + 2 * bo.length + 2 + 2 * io.length) ⟨Cost.zero.steps + 1 + bo.length + 1 + io.length, Cost.zero.alloc + bo.length + io.length⟩ with ⟨lo, h3, h3'⟩ | ⟨h3, h3'⟩
         · unfold W at h3'
           rw [h3, ok_bind, h3']
           dsimp only
           split
           · rfl
-          rcases word_cases "nested.go:1397#ReadUint16" b (pos + 2 + 2 + 2 * bo.length + 2 + 2 * io.length + 2 + 2 * lo.length) with ⟨slc, hs, hsw⟩ | ⟨hs, hsw⟩
+          rcases word_cases "nested.go:1393#ReadUint16" b (pos + 2 + 2 + 2 * bo.length + 2 + 2 * io.length + 2 + 2 * lo.length) with ⟨slc, hs, hsw⟩ | ⟨hs, hsw⟩
           · obtain ⟨_, hlt, _⟩ := readU16_ok hs
             rw [hs, ok_bind, hsw]
             dsimp only
@@ -221,9 +221,9 @@ theorem readChainedSeqContext3_erase (b : Bytes) (pos : Nat) :
               obtain ⟨_, _, hio, _, _⟩ := readSlice_ok h2
               obtain ⟨_, _, hlo, _, _⟩ := readSlice_ok h3
               rw [mkSlice_ok _ _ _ hbo, ok_bind]
-              have e1 := covSetsLoop_erase0 "nested.go:1408#backtrackCov[i]" b pos bo
+              have e1 := covSetsLoop_erase0 "nested.go:1404#backtrackCov[i]" b pos bo
                 (Cost.mem ⟨(Cost.tick ⟨Cost.zero.steps + 1 + bo.length + 1 + io.length + 1 + lo.length, Cost.zero.alloc + bo.length + io.length + lo.length⟩).steps + slc, (Cost.tick ⟨Cost.zero.steps + 1 + bo.length + 1 + io.length + 1 + lo.length, Cost.zero.alloc + bo.length + io.length + lo.length⟩).alloc + slc⟩ bo.length)
-              cases hr1 : covSetsLoop "nested.go:1408#backtrackCov[i]" b pos bo.length bo 0 [] _ with
+              cases hr1 : covSetsLoop "nested.go:1404#backtrackCov[i]" b pos bo.length bo 0 [] _ with
               | ok r1 =>
                 obtain ⟨cb, c5⟩ := r1
                 rw [hr1] at e1
@@ -231,8 +231,8 @@ theorem readChainedSeqContext3_erase (b : Bytes) (pos : Nat) :
                 rw [← e1, ok_bind]
                 dsimp only
                 rw [mkSlice_ok _ _ _ hio, ok_bind]
-                have e2 := covSetsLoop_erase0 "nested.go:1416#inputCov[i]" b pos io (c5.mem io.length)
-                cases hr2 : covSetsLoop "nested.go:1416#inputCov[i]" b pos io.length io 0 [] _ with
+                have e2 := covSetsLoop_erase0 "nested.go:1412#inputCov[i]" b pos io (c5.mem io.length)
+                cases hr2 : covSetsLoop "nested.go:1412#inputCov[i]" b pos io.length io 0 [] _ with
                 | ok r2 =>
                   obtain ⟨ci, c6⟩ := r2
                   rw [hr2] at e2
@@ -240,8 +240,8 @@ theorem readChainedSeqContext3_erase (b : Bytes) (pos : Nat) :
                   rw [← e2, ok_bind]
                   dsimp only
                   rw [mkSlice_ok _ _ _ hlo, ok_bind]
-                  have e3 := covSetsLoop_erase0 "nested.go:1424#lookaheadCov[i]" b pos lo (c6.mem lo.length)
-                  cases hr3 : covSetsLoop "nested.go:1424#lookaheadCov[i]" b pos lo.length lo 0 [] _ with
+                  have e3 := covSetsLoop_erase0 "nested.go:1420#lookaheadCov[i]" b pos lo (c6.mem lo.length)
+                  cases hr3 : covSetsLoop "nested.go:1420#lookaheadCov[i]" b pos lo.length lo 0 [] _ with
                   | ok r3 =>
                     obtain ⟨cl, c7⟩ := r3
                     rw [hr3] at e3
@@ -269,9 +269,9 @@ theorem readChainedSeqContext3_erase (b : Bytes) (pos : Nat) :
       rw [h1, h1']
       rfl
   · rw [hws]
-    have : (readSlice "nested.go:1378#ReadUint16Slice" b (pos + 2) Cost.zero) = .err "io" := by
+    have : (readSlice "nested.go:1374#ReadUint16Slice" b (pos + 2) Cost.zero) = .err "io" := by
       unfold readSlice
-      rcases word_cases ("nested.go:1378#ReadUint16Slice" ++ "#ReadUint16(count)") b (pos + 2) with ⟨n, hn, _⟩ | ⟨hn, _⟩
+      rcases word_cases ("nested.go:1374#ReadUint16Slice" ++ "#ReadUint16(count)") b (pos + 2) with ⟨n, hn, _⟩ | ⟨hn, _⟩
       · exfalso
         obtain ⟨_, _, hq⟩ := readU16_ok hn
         have hl := bytesToWords_length (b.drop pos)
@@ -410,7 +410,7 @@ theorem setsLoop2_erase (b : Bytes) (pos n : Nat) : ∀ (os : List Nat) (i : Nat
       simp only [hb]
       unfold SfntV.Otl.Ctx.readSet
       rw [List.drop_drop]
-      rcases readSlice_cases "nested.go:1063#ReadUint16Slice" b (pos + o) c.tick with ⟨offs, h1, h1'⟩ | ⟨h1, h1'⟩
+      rcases readSlice_cases "nested.go:1059#ReadUint16Slice" b (pos + o) c.tick with ⟨offs, h1, h1'⟩ | ⟨h1, h1'⟩
       · unfold W at h1'
         obtain ⟨_, _, hlt, _, _⟩ := readSlice_ok h1
         rw [h1, ok_bind, h1']
@@ -508,13 +508,13 @@ theorem readChainedSeqContext2_erase (b : Bytes) (pos : Nat) :
   unfold read2 SfntV.Otl.Ctx.readC2
   rcases word_cases "fmt" b pos with ⟨f, _, hws⟩ | ⟨_, hws⟩
   · rw [hws]
-    rcases rec8_cases "nested.go:1015#ReadBytes(8)" "nested.go:1019#buf[0],buf[1]" "nested.go:1020#buf[2],buf[3]"
-        "nested.go:1021#buf[4],buf[5]" "nested.go:1022#buf[6],buf[7]" b (pos + 2) with
+    rcases rec8_cases "nested.go:1011#ReadBytes(8)" "nested.go:1015#buf[0],buf[1]" "nested.go:1016#buf[2],buf[3]"
+        "nested.go:1017#buf[4],buf[5]" "nested.go:1018#buf[6],buf[7]" b (pos + 2) with
       ⟨buf, covOff, bOff, iOff, lOff, hb, h0, h1, h2, h3, hw8⟩ | ⟨hb, hshort⟩
     · rw [hb, ok_bind, h0, ok_bind, h1, ok_bind, h2, ok_bind, h3, ok_bind, hw8,
         show pos + 2 + 8 = pos + 10 by omega]
       dsimp only
-      rcases readSlice_cases "nested.go:1024#ReadUint16Slice" b (pos + 10) Cost.zero.tick with ⟨offs0, hs, hs'⟩ | ⟨hs, hs'⟩
+      rcases readSlice_cases "nested.go:1020#ReadUint16Slice" b (pos + 10) Cost.zero.tick with ⟨offs0, hs, hs'⟩ | ⟨hs, hs'⟩
       · unfold W at hs'
         obtain ⟨_, _, hlt, _, _⟩ := readSlice_ok hs
         rw [hs, ok_bind, hs']
@@ -582,7 +582,7 @@ theorem readChainedSeqContext2_erase (b : Bytes) (pos : Nat) :
     · rw [hb]
       rcases short4 hshort with h | ⟨a, h⟩ | ⟨a, a', h⟩ | ⟨a, a', a'', h⟩ <;> rw [h] <;> rfl
   · rw [hws]
-    have : readBytes "nested.go:1015#ReadBytes(8)" b (pos + 2) 8 = .err "io" := by
+    have : readBytes "nested.go:1011#ReadBytes(8)" b (pos + 2) 8 = .err "io" := by
       unfold readBytes
       have hl := bytesToWords_length (b.drop pos)
       rw [hws] at hl
@@ -657,7 +657,7 @@ theorem setsLoop1_erase (b : Bytes) (pos n : Nat) : ∀ (os : List Nat) (i total
       have hb : (o == 0) = false := by simpa using h0
       simp only [hb]
       rw [List.drop_drop]
-      rcases readSlice_cases "nested.go:718#ReadUint16Slice" b (pos + o) c.tick with ⟨offs, h1, h1'⟩ | ⟨h1, h1'⟩
+      rcases readSlice_cases "nested.go:714#ReadUint16Slice" b (pos + o) c.tick with ⟨offs, h1, h1'⟩ | ⟨h1, h1'⟩
       · unfold W at h1'
         obtain ⟨_, _, hlt, _, _⟩ := readSlice_ok h1
         rw [h1, ok_bind, h1']
@@ -729,10 +729,10 @@ theorem readChainedSeqContext1_erase (b : Bytes) (pos : Nat) :
   unfold read1 SfntV.Otl.Ctx.readC1
   rcases word_cases "fmt" b pos with ⟨f, _, hws⟩ | ⟨_, hws⟩
   · rw [hws]
-    rcases word_cases "nested.go:683#ReadUint16" b (pos + 2) with ⟨covOff, hc, hcw⟩ | ⟨hc, hcw⟩
+    rcases word_cases "nested.go:679#ReadUint16" b (pos + 2) with ⟨covOff, hc, hcw⟩ | ⟨hc, hcw⟩
     · rw [hc, ok_bind, hcw, show pos + 2 + 2 = pos + 4 by omega]
       dsimp only
-      rcases readSlice_cases "nested.go:687#ReadUint16Slice" b (pos + 4) Cost.zero.tick with ⟨offs0, hs, hs'⟩ | ⟨hs, hs'⟩
+      rcases readSlice_cases "nested.go:683#ReadUint16Slice" b (pos + 4) Cost.zero.tick with ⟨offs0, hs, hs'⟩ | ⟨hs, hs'⟩
       · unfold W at hs'
         obtain ⟨_, _, hlt, _, _⟩ := readSlice_ok hs
         rw [hs, ok_bind, hs']
@@ -783,8 +783,8 @@ theorem readChainedSeqContext1_erase (b : Bytes) (pos : Nat) :
     · rw [hc, hcw]
       rfl
   · rw [hws]
-    have : readU16 "nested.go:683#ReadUint16" b (pos + 2) = .err "io" := by
-      rcases word_cases "nested.go:683#ReadUint16" b (pos + 2) with ⟨n, hn, _⟩ | ⟨hn, _⟩
+    have : readU16 "nested.go:679#ReadUint16" b (pos + 2) = .err "io" := by
+      rcases word_cases "nested.go:679#ReadUint16" b (pos + 2) with ⟨n, hn, _⟩ | ⟨hn, _⟩
       · exfalso
         obtain ⟨_, _, hq⟩ := readU16_ok hn
         have hl := bytesToWords_length (b.drop pos)
